@@ -99,6 +99,9 @@ pub struct World {
     pub split_handshake: bool,
     /// is_open() == open && !busy (mirrors HttpConnection) when true; == open when false
     pub strict_is_open: bool,
+    /// the inner service polls the connection it was handed for readiness before it sends (as a
+    /// tower service that honours `poll_ready` does; the stock request executor does not)
+    pub exec_polls_ready: bool,
     pub dials: Vec<Dial>,
     pub conns: Vec<ConnState>,
     pub handoffs: Vec<Handoff>,
@@ -509,7 +512,16 @@ impl tower::Service<ExecuteRequest<Pooled<HConn, Body>, Body>> for Recorder {
         Poll::Ready(Ok(()))
     }
     fn call(&mut self, req: ExecuteRequest<Pooled<HConn, Body>, Body>) -> ExchangeFuture {
-        let (pooled, request) = req.into_parts();
+        let (mut pooled, request) = req.into_parts();
+        if with(|w| w.exec_polls_ready) {
+            let waker = std::task::Waker::noop();
+            let mut cx = Context::from_waker(waker);
+            let ready = Connection::poll_ready(&mut pooled, &mut cx);
+            with(|w| {
+                w.ready_polls.pop();
+                w.obs.push(format!("exec-poll-ready {}", if matches!(ready, Poll::Ready(Ok(()))) { "ready" } else { "not-ready" }));
+            });
+        }
         let r: u8 = request
             .uri()
             .path()
